@@ -112,3 +112,12 @@ pub fn bytes_diff<const N: usize>(a: &[u8; N], b: &[u8; N], used: usize) -> (boo
 pub fn anchor() -> Point {
     if flag() { Point::new(0, 0) } else { Point::new(-3, -2) }
 }
+
+/// PrimitiveStyle from its parts
+pub fn style(width: u32, align: StrokeAlignment, fill: Option<Gray8>, stroke: Option<Gray8>) -> PrimitiveStyle<Gray8> {
+    let mut b = PrimitiveStyleBuilder::new().stroke_width(width).stroke_alignment(align);
+    if let Some(c) = fill { b = b.fill_color(c); }
+    if let Some(c) = stroke { b = b.stroke_color(c); }
+    b.build()
+}
+
